@@ -26,21 +26,32 @@ Proof.
   rewrite (midnight_le_iff cb d Hb Hd), (midnight_le_iff d ce Hd He). reflexivity.
 Qed.
 
-(** [summary today] under --today D in any zone, and [summary D]: exactly the calendar day D *)
-Theorem summary_selects_calendar_day : forall D tz d, tz_ok tz -> valid_civil D -> valid_civil d ->
+(** general lemma about windows: a midnight re-labelled with a fixed zone offset (see PeriodSummary) *)
+Lemma window_midnight_in_zone_calendar_day : forall D tz d, valid_civil D -> valid_civil d ->
   let t := to_local (time_of_civil D) tz in
   (in_interval (Some (summary_begin t)) (Some (summary_end t)) (time_of_civil d) = true <-> d = D).
 Proof.
-  intros D tz d Htz HD Hd t. unfold t. rewrite (summary_filter_any_tz D tz d Htz). rewrite Z.eqb_eq.
+  intros D tz d HD Hd t. unfold t. rewrite (window_filter_midnight_in_zone D tz d). rewrite Z.eqb_eq.
   split; [apply days_from_civil_injective; assumption|intros; subst; reflexivity].
 Qed.
 
+(** [summary D]: exactly the calendar day D *)
 Theorem summary_date_selects_calendar_day : forall D d, valid_civil D -> valid_civil d ->
   let t := time_of_civil D in
   (in_interval (Some (summary_begin t)) (Some (summary_end t)) (time_of_civil d) = true <-> d = D).
 Proof.
   intros D d HD Hd t. unfold t. rewrite (summary_filter_explicit D d). rewrite Z.eqb_eq.
   split; [apply days_from_civil_injective; assumption|intros; subst; reflexivity].
+Qed.
+
+(** [summary today] under --today D, in EVERY process zone (any offset, no bound): exactly the
+    calendar day D.  The keyword is the date as given (fix 4fa5d57), so this is [summary D]. *)
+Theorem summary_selects_calendar_day : forall w tz toks D d, valid_civil D -> valid_civil d ->
+  exists t, time_from_string (with_tz w tz) (time_of_civil D) toks (b "today") = inr t /\
+            (in_interval (Some (summary_begin t)) (Some (summary_end t)) (time_of_civil d) = true <-> d = D).
+Proof.
+  intros w tz toks D d HD Hd. exists (time_of_civil D). split; [reflexivity|].
+  apply summary_date_selects_calendar_day; assumption.
 Qed.
 
 Example calendar_order_ex :
